@@ -148,62 +148,91 @@ def check(model: Model, run: Run) -> None:
         'the counter, DISABLED dominates',
         floor=60,
     )
-    ol = Loc(model, one)
+    # one(counter, state) - with the trigger() it calls - is RUN on the syntax tree (sa/evalfn.py) for every cell of
+    # state x disable file x check result x counter x (rise, fall) x debounce, and compared with the reference automaton:
+    # how the branches are nested, merged or named does not matter
+    from ..evalfn import EnumMember, Raised, Undecided, eval_function
+
     op_ = [a.arg for a in one.node.args.args]
-    succ = ol.from_value(lambda v: isinstance(v, ast.BoolOp) and isinstance(v.op, ast.Or) and any(isinstance(x, ast.Call) and dotted(x.func) == 'check' for x in v.values))
-    dis_n = [x.id for nm in succ for v in ol.values(nm) if isinstance(v, ast.BoolOp) for x in v.values if isinstance(x, ast.Name)]
-    rets = [r for r in walk_no_nested(one.node) if isinstance(r, ast.Return) and isinstance(r.value, ast.Tuple)]
-    if len(op_) != 2 or len(succ) != 1 or len(dis_n) != 1 or not rets or [dotted(e) for e in rets[-1].value.elts] != op_:
-        run.cannot('one(): counter / state parameters, `successful = disabled or check(...)` or the returned (counter, state) not found (shape not understood)')
-        return
-    ROLES = {'counter': op_[0], 'state': op_[1], 'successful': succ[0], 'disabled': dis_n[0]}
-    n_cases = 0
-    for state, dis, okc, r1, reach in itertools.product(STATES, (False, True), (False, True), (False, True), (False, True)):
-        succ_v = dis or okc  # successful = disabled or check(...)
-        env = {'_roles': ROLES, 'state': state, 'disabled': dis, 'successful': succ_v, 'rise_le1': r1, 'fall_le1': r1, 'reach': reach, 'reach_strict': False if not reach else None}
-        try:
-            got = run_one(one.node, dict(env))
-        except Undecidable as e:
-            run.cannot('one(): shape not understood: %s' % e)
-            return
-        want = reference(env)
-        n_cases += 1
-        inst = 'state=%s disabled=%s check=%s rise<=1=%s reached=%s' % (state, dis, okc, r1, reach)
-        if got == want:
-            run.ok(inst, '-> %s %s' % got)
-        else:
-            run.violation(
-                one.qualname,
-                '%s: trigger %s counter %s, reference trigger %s counter %s' % (inst, got[0], got[1], want[0], want[1]),
-                one.loc(),
-                'the automaton deviates from rise/fall hysteresis in this cell (a counter that is not reset on a flip carries the '
-                'successes counted while rising into the fall count, and the other way round)',
-            )
-    run.extra['table_cells'] = n_cases
-    # `successful` really includes the disabled short-cut, and the comparisons are >=
-    C_, S_ = ROLES['counter'], ROLES['state']
-    cmps = [norm(n).replace(C_, '<counter>') for n in walk_no_nested(one.node) if isinstance(n, ast.Compare) and C_ in {x.id for x in ast.walk(n) if isinstance(x, ast.Name)}]
-    run.check(sorted(cmps) == ['<counter> >= options.fall', '<counter> >= options.rise'], one.qualname, 'threshold tests %s' % sorted(cmps), one.loc(), 'UP after exactly `rise` successes, DOWN after exactly `fall` failures (>=)')
-    # the RISING branch compares with rise, the FALLING branch with fall
-    for st_name, thr in (('RISING', 'options.rise'), ('FALLING', 'options.fall')):
-        okb = False
-        for n in walk_no_nested(one.node):
-            if isinstance(n, ast.If) and norm(n.test) == '%s == States.%s' % (S_, st_name):
-                okb = any(isinstance(c, ast.Compare) and norm(c) == '%s >= %s' % (C_, thr) for c in ast.walk(n))
-        run.check(okb, one.qualname, '%s compares the counter with %s' % (st_name, thr), one.loc(), 'rise counts successes, fall counts failures')
-    # trigger(): shortcuts
     tp = trig.node.args.args[0].arg if trig.node.args.args else '?'
-    t_txt = ' ; '.join(norm(st) for st in trig.node.body if isinstance(st, ast.If))
-    okt = ('%s == States.RISING and options.rise <= 1' % tp) in t_txt and ('%s = States.UP' % tp) in t_txt and ('%s == States.FALLING and options.fall <= 1' % tp) in t_txt and ('%s = States.DOWN' % tp) in t_txt
-    # each shortcut sits under its own test
-    for iff in (st for st in ast.walk(trig.node) if isinstance(st, ast.If)):
-        tt, bb = norm(iff.test), ' ; '.join(norm(x) for x in iff.body)
-        if 'States.RISING' in tt and 'States.DOWN' in bb and 'States.UP' not in bb:
-            okt = False
-        if ('options.rise' in tt and 'States.FALLING' in tt) or ('options.fall' in tt and 'States.RISING' in tt):
-            okt = False
-    rets = [r for r in walk_no_nested(trig.node) if isinstance(r, ast.Return)]
-    run.check(okt and len(rets) == 1 and dotted(rets[0].value) == tp, trig.qualname, 'rise<=1 / fall<=1 shortcuts, returns the target', trig.loc(), 'with rise or fall of 1 the intermediate state is skipped')
+    if len(op_) != 2:
+        run.cannot('one(): counter / state parameters not found')
+        return
+
+    def reference(state: str, dis: bool, okc: bool, cnt: int, rise: int, fall: int) -> tuple[int, str]:
+        ok = dis or okc
+
+        def tr(t: str) -> str:
+            return 'UP' if t == 'RISING' and rise <= 1 else 'DOWN' if t == 'FALLING' and fall <= 1 else t
+
+        if state != 'DISABLED' and dis:
+            return cnt, tr('DISABLED')
+        if state == 'INIT':
+            if ok and rise <= 1:
+                return cnt, tr('UP')
+            return (1, tr('RISING')) if ok else (1, tr('FALLING'))
+        if state == 'DISABLED':
+            return (cnt, tr('INIT')) if not dis else (cnt, state)
+        if state == 'RISING':
+            if ok:
+                return (cnt + 1, tr('UP')) if cnt + 1 >= rise else (cnt + 1, state)
+            return 1, tr('FALLING')
+        if state == 'FALLING':
+            if not ok:
+                return (cnt + 1, tr('DOWN')) if cnt + 1 >= fall else (cnt + 1, state)
+            return 1, tr('RISING')
+        if state == 'UP':
+            return (1, tr('FALLING')) if not ok else (cnt, state)
+        return (1, tr('RISING')) if ok else (cnt, state)  # DOWN
+
+    def run_trigger(target: str, opts: dict):  # noqa: ANN202
+        r_ = eval_function(folder, trig, {tp: EnumMember(target), 'options': opts}, outcomes=True, max_steps=300, on_effect=lambda c_, e_: True)
+        return r_
+
+    n_cases = 0
+    undecided = None
+    for state, dis, okc, cnt, (rise, fall), deb in itertools.product(STATES, (False, True), (False, True), (0, 1, 2, 5), ((1, 1), (3, 3), (1, 3), (3, 1)), (False, True)):
+        opts = {'disable': '/run/disable' if dis else None, 'rise': rise, 'fall': fall, 'debounce': deb, 'command': 'true', 'timeout': 5, 'execute': [], 'fast': 1, 'interval': 5}
+        opts.update({'%s_execute' % k_.lower(): [] for k_ in ('UP', 'DOWN', 'DISABLED', 'RISING', 'FALLING', 'INIT', 'EXIT', 'END')})
+        announced: list = []
+        envd: dict = {}
+
+        def unknown(e_: ast.AST, opts=opts, dis=dis, okc=okc, envd=envd):  # noqa: ANN202
+            t_ = norm(e_)
+            if isinstance(e_, ast.Call) and dotted(e_.func) == 'trigger' and e_.args:
+                tg = folder.fold(e_.args[0], one.module, one.cls, envd)
+                r_ = run_trigger(tg, opts) if isinstance(tg, str) else UNKNOWN
+                return EnumMember(r_) if isinstance(r_, str) else UNKNOWN
+            if 'os.path.exists' in t_:
+                return dis if isinstance(e_, ast.Call) else (opts['disable'] is not None and dis)
+            if isinstance(e_, ast.Call) and dotted(e_.func) == 'check':
+                return okc
+            if isinstance(e_, ast.BoolOp) and 'check(' in t_ and isinstance(e_.op, ast.Or):
+                return bool(dis or okc)
+            return UNKNOWN
+
+        def effect(c_: ast.Call, env_: dict, announced=announced) -> bool:
+            if dotted(c_.func) == 'exabgp' and c_.args:
+                announced.append(folder.fold(c_.args[0], one.module, one.cls, env_))
+                return True
+            return (dotted(c_.func) or '').startswith('logger.')
+
+        r = eval_function(folder, one, {op_[0]: cnt, op_[1]: EnumMember(state), 'options': opts}, outcomes=True, max_steps=400, on_unknown=unknown, on_effect=effect, env_out=envd)
+        inst = 'state=%s disable-file=%s check=%s counter=%d rise=%d fall=%d debounce=%s' % (state, dis, okc, cnt, rise, fall, deb)
+        if isinstance(r, (Undecided, Raised)) or not (isinstance(r, tuple) and len(r) == 2):
+            undecided = '%s: %s' % (inst, r)
+            continue
+        n_cases += 1
+        want = reference(state, dis, okc, cnt, rise, fall)
+        got = (r[0], str(r[1]))
+        want_ann = [want[1]] if (not deb or want[1] != state) else []
+        if got == want and [str(x) for x in announced] == want_ann:
+            run.ok(inst, '-> %s' % (got,))
+        else:
+            run.violation(one.qualname, '%s: (counter, state) %s announced %s, reference %s announced %s' % (inst, got, [str(x) for x in announced], want, want_ann), one.loc(), 'the automaton deviates from rise/fall hysteresis in this cell: UP only after `rise` consecutive successes, DOWN only after `fall` consecutive failures, a contrary result flips RISING <-> FALLING and restarts the count at 1, the disable file dominates, rise / fall of 1 skip the intermediate state; the state is announced on a change, or every round without --debounce')
+    run.extra['table_cells'] = n_cases
+    if undecided is not None:
+        run.cannot('one(): not evaluated for %s' % undecided)
     # initial state
     ll = Loc(model, loop)
     oc = [c for c in walk_no_nested(loop.node) if isinstance(c, ast.Call) and dotted(c.func) == 'one' and len(c.args) == 2]
@@ -214,13 +243,6 @@ def check(model: Model, run: Run) -> None:
         first_s = ll.defs.get(s0, [(None, '', None)])[0][0]
         init_ok = folder.fold(first_c, loop.module) == 0 and dotted(first_s) == 'States.INIT' if first_c is not None and first_s is not None else False
     run.check(init_ok, loop.qualname, 'starts in INIT with counter 0', loop.loc(), 'initial state')
-    # one() announces the (possibly new) state
-    calls = [c for c in walk_no_nested(one.node) if isinstance(c, ast.Call) and dotted(c.func) == 'exabgp']
-    prev = ol.from_value(lambda v: isinstance(v, ast.Name) and v.id == S_)
-    g_ = [t for t, p in flat_guards(one.node, calls[0]) if p] if calls else []
-    okc2 = len(calls) == 1 and dotted(calls[0].args[0]) == S_ and len(g_) == 1 and any(amatch('not options.debounce or V_s != V_p', g_[0], {'V_s': S_, 'V_p': p_}) is not None for p_ in prev)
-    run.check(okc2, one.qualname, 'exabgp(state) on change, or every round without debounce', one.loc(), 'announcement driven by the state')
-
     # ------------------------------------------------------------------ R2 what is announced
     run.rule('C20.R2', 'exabgp(target) writes nothing for INIT/RISING/FALLING; announces for UP; for DOWN/DISABLED withdraws iff withdraw_on_down else announces; EXIT always withdraws; SIGTERM and KeyboardInterrupt call exabgp(EXIT) unconditionally', floor=5)
     # what exabgp(target) does, as a table over target x withdraw_on_down, by walking the function with the tests on the
@@ -341,19 +363,8 @@ def check(model: Model, run: Run) -> None:
             return {'disabled_community'}
         return {'community'} if c else set()
 
-    if len(actions) == 1 and comm_vars:
-        for tgt in ('UP', 'DOWN', 'DISABLED'):
-            for wod in (False, True):
-                for c_, d_ in itertools.product((False, True), (False, True)):
-                    CUR.clear()
-                    CUR['opts'] = {'community': c_, 'disabled_community': d_}
-                    stt = {'wrote': set()}
-                    try:
-                        walk_x(exa.node.body, tgt, wod, stt)
-                    except Undecidable:
-                        continue
-                    got_c = {x for x in stt.get('emitted', set()) if x}
-                    run.check(got_c == want_comm(tgt, wod, c_, d_), exa.qualname, 'target=%s withdraw_on_down=%s community=%s disabled-community=%s announces community %s' % (tgt, wod, 'set' if c_ else 'unset', 'set' if d_ else 'unset', sorted(got_c) or 'none'), exa.loc(), 'DOWN / DISABLED announcements carry the disabled community when one is configured, every announcement carries the community otherwise (expected %s)' % (sorted(want_comm(tgt, wod, c_, d_)) or 'none'))
+    # (which community an announcement carries is decided with the lines themselves: C20.R3 evaluates exabgp() for the four
+    # combinations of --community / --disabled-community in every state)
     CUR.clear()
     if len(actions) != 1:
         run.cannot('exabgp(): the local holding the action (announce / withdraw) was not found')
@@ -522,6 +533,9 @@ def _r3_lines(model: Model, run: Run, folder: Folder, exa, tpar: str) -> None:  
         'attributes': {'next_hop': '192.0.2.254', 'local_preference': 200, 'community': '65000:1', 'disabled_community': '65000:666', 'extended_community': 'target:65000:1', 'large_community': '65000:1:2', 'as_path': '65001 65002', 'down_as_path': '65001 65001 65002', 'path_id': 7},
         'withdraw on down, path id': {'withdraw_on_down': True, 'path_id': 7, 'community': '65000:1'},
         'state as-path only': {'up_as_path': '65010', 'disabled_as_path': '65030 65030'},
+        'community only': {'community': '65000:1'},
+        'disabled community only': {'disabled_community': '65000:666'},
+        'both communities, withdraw on down': {'community': '65000:1', 'disabled_community': '65000:666', 'withdraw_on_down': True},
         'generic as-path only': {'as_path': '65001'},
     }
 
